@@ -107,6 +107,7 @@ Inductive ev :=
 | EFlushEnd
 | ENflogGC
 | ENflogMerge (i : nat) (e : nentry)
+| ENflogLoad (i : nat) (e : nentry)     (* start-up: loadSnapshot puts the entry back unconditionally (no expiry check) *)
 | EEnd.
 
 Inductive out :=
@@ -280,6 +281,11 @@ Definition step (cfg : gcfg) (s : gstate) (t : Z) (e : ev) : option (gstate * li
   | ENflogMerge i e =>
       match s_nflog s !! i with
       | Some ent => Some (mkS t (s_group s) (set_nth (s_nflog s) i (nf_merge t ent e)), [])
+      | None => None
+      end
+  | ENflogLoad i e =>
+      match s_nflog s !! i with
+      | Some _ => Some (mkS t (s_group s) (set_nth (s_nflog s) i (Some e)), [])
       | None => None
       end
   | EEnd => Some (mkS t (s_group s) (s_nflog s), [])
